@@ -84,17 +84,24 @@ def r10a(chk, rid='R10.a'):
     from sa.absint import Record
 
     dm = chk.repo.mod(DECL)
-    for acc, target, args in (('_getP', 'getPropertyValue', {'CSSName': 'font-style'}), ('_setP', 'setProperty', {'CSSName': 'font-style', 'value': 'italic'}), ('_delP', 'removeProperty', {'CSSName': 'font-style'})):
-        fn = dm.get(f'CSSStyleDeclaration.{acc}')
+    for acc, target, args in (('_getP', 'getPropertyValue', {'CSSName': 'font-style'}), ('_setP', 'setProperty', {'CSSName': 'font-style', 'value': 'italic'}), ('_delP', 'removeProperty', {'CSSName': 'font-style'}),
+                              ('__getitem__', 'getPropertyValue', {'CSSName': 'font-style'}), ('__setitem__', 'setProperty', {'CSSName': 'font-style', 'value': 'italic'}),
+                              ('__setitem__ (tuple)', 'setProperty', {'CSSName': 'font-style', 'value': ('italic', 'important')}), ('__delitem__', 'removeProperty', {'CSSName': 'font-style'})):
+        fn = dm.get(f'CSSStyleDeclaration.{acc.split(" ")[0]}')
         calls = []
-        me = Record(getPropertyValue=lambda name, normalize=True, default='': (calls.append(('getPropertyValue', name, normalize)), 'VALUE')[1],
+        me = Record(getPropertyPriority=lambda name, normalize=True: 'important', getProperty=lambda name, normalize=True: Record(priority='important', value='OLD', name=name),
+                    getPropertyValue=lambda name, normalize=True, default='': (calls.append(('getPropertyValue', name, normalize)), 'VALUE')[1],
                     setProperty=lambda name, value=None, priority='', normalize=True, replace=True: calls.append(('setProperty', name, value, priority, normalize, replace)),
                     removeProperty=lambda name, normalize=True: calls.append(('removeProperty', name, normalize)))
         got = Evaluator(fn, module=dm, cls='CSSStyleDeclaration').run(self=me, **args)
-        want = {'_getP': [('getPropertyValue', 'font-style', True)], '_setP': [('setProperty', 'font-style', 'italic', '', True, True)], '_delP': [('removeProperty', 'font-style', True)]}[acc]
-        ok = not isinstance(got, Raised) and calls == want and (acc != '_getP' or got == 'VALUE')
-        chk.ob(rid, DECL, f'CSSStyleDeclaration.{acc}', f'attribute-style access is {target} by normalised name', ok,
-               f'calls {calls}, returns {got!r}: `style.fontStyle` then differs from access by name for an entry written with an escape or in upper case')
+        want = {'_getP': [('getPropertyValue', 'font-style', True)], '_setP': [('setProperty', 'font-style', 'italic', '', True, True)], '_delP': [('removeProperty', 'font-style', True)],
+                '__getitem__': [('getPropertyValue', 'font-style', True)], '__setitem__': [('setProperty', 'font-style', 'italic', '', True, True)],
+                '__setitem__ (tuple)': [('setProperty', 'font-style', 'italic', 'important', True, True)], '__delitem__': [('removeProperty', 'font-style', True)]}[acc]
+        # an absent priority may be passed as '' or None: setProperty treats both as "no priority"
+        calls = [tuple('' if (c[0] == 'setProperty' and i == 3 and x is None) else x for i, x in enumerate(c)) for c in calls]
+        ok = not isinstance(got, Raised) and calls == want and (target != 'getPropertyValue' or got == 'VALUE')
+        chk.ob(rid, DECL, f'CSSStyleDeclaration.{acc}', f'attribute- and item-style access is {target} by normalised name, a plain value carries no priority', ok,
+               f'calls {calls}, returns {got!r}: `style.fontStyle = v`, `style[name] = v` and setProperty(name, v) then differ for the same update (an entry written with an escape or in upper case, or one that is !important)')
 
 
 # ---------------------------------------------------------------------------
